@@ -139,6 +139,15 @@ def hyp(acc, n, seed, tier):
     harness.run_hypothesis(acc, strategy(tier), lambda c: harness.process(mod, acc, "spectriple", c, "spec-L2-expr"), n, seed)
 
 
+def is_known(kind, case):
+    if kind.startswith("marker"):
+        from .. import markerops
+
+        # S4a through markers: V >= lo merged with V < "X.postN" renders as ~=lo (see known_findings.json)
+        return "S4a-post-release-upper-bound" if markerops.s4a_case(case) else None
+    return None
+
+
 def evaluate(kind, case, acc):
     if kind.startswith("marker"):
         from . import c14m
